@@ -309,16 +309,30 @@ func runC33(c *Ctx) {
 		fi := w.Fn("ai/vector.domainIndex.initialize")
 		c.Analysed(fi)
 		info := fi.Pkg.TypesInfo
-		pkgConsts := func(e ast.Node) map[string]bool {
-			out := map[string]bool{}
+		// package-level constants an expression is built from; local variables with a single
+		// definition are looked through (a name computed once and reused in the list)
+		fiDefs := localDefs(fi)
+		var pkgConstsD func(e ast.Node, depth int, out map[string]bool)
+		pkgConstsD = func(e ast.Node, depth int, out map[string]bool) {
 			ast.Inspect(e, func(x ast.Node) bool {
 				if id, ok := x.(*ast.Ident); ok {
-					if k, ok := info.Uses[id].(*types.Const); ok && k.Pkg() == fi.Pkg.Types && k.Parent() == k.Pkg().Scope() {
-						out[k.Name()] = true
+					switch k := info.Uses[id].(type) {
+					case *types.Const:
+						if k.Pkg() == fi.Pkg.Types && k.Parent() == k.Pkg().Scope() {
+							out[k.Name()] = true
+						}
+					case *types.Var:
+						if ds := fiDefs[k]; len(ds) == 1 && depth < 3 {
+							pkgConstsD(ds[0], depth+1, out)
+						}
 					}
 				}
 				return true
 			})
+		}
+		pkgConsts := func(e ast.Node) map[string]bool {
+			out := map[string]bool{}
+			pkgConstsD(e, 0, out)
 			return out
 		}
 		// the stores the phases build per version: name arguments of sop.ConfigureStore in the file of
